@@ -8,8 +8,8 @@
       an object the Go chain hoisted (anonymous struct / enum, union struct) may be described inline,
       annotations (`description`, `default`) are ignored, nullability is ignored.
   * `sat n S t j`  (document level) the document respects what the IR says beyond the Go type:
-      constraints, enum membership, constants; no `any` value (emitted as `{type: object}`, while
-      the C01 fragment `den` excludes objects inside `any`); no `null` except for an optional member.
+      constraints, enum membership, constants; an `any` value is an object (`any` is emitted as
+      `{type: object}`); no `null` except for an optional member.
 
   Same fuel discipline as `den` / `goDecode`.  Core Lean only.
 -/
@@ -162,7 +162,9 @@ def sat : Nat → Schemas → Ty → Json → Bool
   | n + 1, ss, t, j =>
     !j.isNull &&
     match t with
-    | .scalar kind v cs _ => kind != "any" && satScalar kind v cs j
+    | .scalar kind v cs _ =>
+      if kind = "any" then isNilVal v && (match j with | .obj _ => true | _ => false)
+      else satScalar kind v cs j
     | .array e _ =>
       (match j with
        | .arr xs => xs.all (sat n ss e)
